@@ -1,4 +1,5 @@
 """C01 — codec encoder side: Len/Encode/Encoder.Write against Enc.v, WireSpec.v (packet/)."""
+import re
 import resource
 
 ASSUMPTIONS = [
@@ -8,6 +9,8 @@ ASSUMPTIONS = [
 ]
 
 CLAUSES = ("encode_total", "len_spec", "len_is_written", "layout", "wire_exact", "short_buffer", "roundtrip", "varint")
+# each clause is an extracted judge of coq/Codec/EncJudge.v (proved of the model: C01_judges_sound, C01_stream_judge_sound,
+# C01_header_judge_sound) evaluated on the implementation's observations alone
 
 
 def run(ck):
@@ -24,12 +27,15 @@ def run(ck):
     lines = ck.model("codecenc", "c01", path)
     cases = {}
     impls = {}
+    batches = {}
     with open(path) as f:
         for l in f:
             if l.startswith("case "):
                 cases[l.split(" ", 2)[1]] = l.rstrip("\n")
             elif l.startswith("impl "):
                 impls[l.split(" ", 2)[1]] = l.rstrip("\n")[:4000]
+            elif l.startswith("batch "):
+                batches[l.split(" ", 2)[1]] = l.rstrip("\n")[:4000]
     witnessed = False
     tie_only = []
     for l in lines:
@@ -38,6 +44,12 @@ def run(ck):
             k, clause = f[1], f[2]
             if k == "hw":      # helper case: the line itself is the input
                 ck.fail_input(clause, l[:600], [l[:2000]])
+            elif k == "he":
+                m = re.search(r"type=(\d+) flags=(\d+) rl=(\d+) tl=(\d+) cap=(\d+)", l)
+                ck.fail_input(clause, l[:600], ["he %s %s %s %s %s -" % m.groups() if m else "", l[:2000]])
+            elif k == "batch":         # several packets through one Encoder: the cases, then the batch line
+                ids = f[3][4:].split(",")
+                ck.fail_input(clause, l[:600], [cases.get(i, "") for i in ids] + [batches.get(f[3][4:], ""), l[:2000]])
             else:
                 ck.fail_input(clause, l[:600], [cases.get(k, ""), impls.get(k, ""), l[:2000]])
             witnessed = True
